@@ -176,7 +176,7 @@ def wellformed(b, xs, cs):
     return tuple(xs) == tuple(b.shape) and (b.cond_shape is None or (cs is not None and tuple(cs) == tuple(b.cond_shape)))
 
 
-def run_battery(ctx, u, name, b, term, cases):
+def run_battery(ctx, u, name, b, term, cases, spec=None):
     reqs = [f"run {m} {term} {S.s_tensor(np.full(xs, 0.5))} {'none' if cs is None else S.s_tensor(np.full(cs, 0.25))}" for m, xs, cs, _ in cases]
     outs = ctx.model(reqs)
     for (m, xs, cs, kind), line in zip(cases, outs):
@@ -188,6 +188,8 @@ def run_battery(ctx, u, name, b, term, cases):
         u.count(f"{name}|{tuple(b.shape)}|{m}|{xs}|{cs}", nontrivial=not wf, tag=f"{name.split('[')[0]}:{kind}")
         case = dict(cls=name, shape=list(b.shape), cond_shape=None if b.cond_shape is None else list(b.cond_shape), method=m,
                     x_shape=list(xs), c_shape=None if cs is None else list(cs), term=term[:2000])
+        if spec is not None:
+            case["tree_spec"] = spec
         if impl[0] == "notimpl":
             if wf:
                 continue  # the method does not exist for this class; nothing to compare
@@ -237,6 +239,7 @@ def check_wrappers(ctx, u, classes, F):
             u.count(f"{cls.__module__}.{cls.__name__}.{m}", nontrivial=True, tag="wrapped" if ok else "UNWRAPPED")
             if ok:
                 continue
+            refactored = fn is not None and hasattr(fn, "__wrapped__")  # wrapped, but not by bijection.py's wrapper code object
             # exercise it: find an instance and a malformed input that is accepted
             found, what = False, f"{cls.__name__}.{m} does not resolve to a function carrying the check wrapper of bijection.py"
             case = dict(cls=cls.__name__, method=m, wrapper_missing=True)
@@ -260,6 +263,9 @@ def check_wrappers(ctx, u, classes, F):
                         break
                 if found:
                     break
+            if refactored and not found:
+                ctx.notes.append(f"{cls.__name__}.{m} carries a wrapper other than _unwrap_check_and_cast's (refactoring?); no malformed input was accepted")
+                continue
             ctx.violation(sig=f"wrapper:{cls.__name__}:{m}", what=what, case=case, found_input=found, unit=u.name,
                           expected="method wrapped by _unwrap_check_and_cast", observed=repr(fn)[:120],
                           broken="wrapper-unit (class-creation hook coverage)", reproducer="cd /verif && ./check C13 --replay <this file>")
@@ -375,9 +381,7 @@ def run(ctx):
             ctx.notes.append(f"composition generator: {type(e).__name__} {str(e)[:60]}")
             continue
         cases = battery(b, full=not ctx.quick)
-        run_battery(ctx, uc, f"tree:{spec[0]}", b, term, cases)
-        if ctx.violations and ctx.violations[-1]["sig"].startswith("tree:") and "spec" not in str(ctx.violations[-1]):
-            pass
+        run_battery(ctx, uc, f"tree:{spec[0]}", b, term, cases, spec=spec)
     # ---- constructors
     for spec, tag in c08.directed_ctor_specs(G, ctx.quick):
         c08.check_tree(ctx, uk, spec, rng, tag, with_oracle=True)
@@ -403,10 +407,13 @@ def replay(ctx, rep):
         return False
     name = c["cls"]
     F = factories()
-    if name.startswith("tree:") or name not in F:
-        print("replay of a generated composition: term", c.get("term", "")[:200])
+    if "tree_spec" in c:
+        b = c08.build(c["tree_spec"])
+    elif name in F:
+        b = F[name](tuple(c["shape"]))
+    else:
+        print("replay: unknown class", name)
         return False
-    b = F[name](tuple(c["shape"]))
     xs, cs = tuple(c["x_shape"]), None if c["c_shape"] is None else tuple(c["c_shape"])
     impl = call(b, c["method"], xs, cs)
     wf = wellformed(b, xs, cs)
